@@ -110,6 +110,7 @@ def gen_trace(rng, models, small=False):
     threads = []
     ncpus = 2 * nth
     type_id = {}
+    ranked = rng.chance(1, 2)      # MPI ranks: every thread of a process carries its rank and the number of ranks
     for i in range(nth):
         pid = 200 if (two_procs and i == nth - 1) else 100
         tid = 1000 + i
@@ -122,6 +123,9 @@ def gen_trace(rng, models, small=False):
                                  cpus=[(k, k) for k in range(ncpus)])
         if use_marks:
             meta["ovni"]["mark"] = json.loads(json.dumps(MARKS))
+        if ranked:
+            meta["ovni"]["rank"] = 0 if pid == 100 else 1
+            meta["ovni"]["nranks"] = 2
         clock = 1000 + rng.below(50)
         evs = []
 
